@@ -32,6 +32,7 @@ pub struct Tally {
     pub by_family: std::collections::BTreeMap<&'static str, u64>,
     pub unmodelled_reasons: std::collections::BTreeMap<String, u64>,
     pub masked: std::collections::BTreeMap<String, u64>,
+    pub paren_variants: u64,
 }
 
 pub struct Verdict {
@@ -109,6 +110,8 @@ pub struct Runner<'a> {
     pub tally: Tally,
     pub classify: &'a dyn Fn(&Case, &Verdict, &Obs, Option<&crate::kref::RefObs>) -> Option<String>,
     pub extra_check: Option<&'a dyn Fn(&Case, &str, &Obs) -> Option<(String, String)>>,
+    /// every n-th case is also run in its redundant-parentheses rendering (0 = never)
+    pub paren_variant_every: usize,
 }
 
 impl Runner<'_> {
@@ -164,6 +167,22 @@ impl Runner<'_> {
             self.tally.samples.push(src.clone());
         }
         let v = judge(&real, &rf);
+        if v.ok && self.paren_variant_every > 0 && i % self.paren_variant_every == 0 {
+            // the same program with redundant parentheses around every operand, argument, element
+            // and assigned value: parentheses that are not needed never change the meaning
+            let src2 = render_program_with(&case.prog, 2, Layout { redundant_parens: true, ..Layout::default() });
+            if src2 != src {
+                let real2 = run_script(&src2, &self.cfg);
+                self.tally.paren_variants += 1;
+                let v2 = judge(&real2, &rf);
+                if !v2.ok {
+                    let expected = format!("reference: stdout {:?} outcome {:?}", rf.stdout, rf.outcome);
+                    let v2 = Verdict { ok: false, class: v2.class, detail: format!("(redundant-parentheses rendering) {}", v2.detail) };
+                    self.record(&case, &src2, &v2, &expected, &real2, Some(&rf));
+                    return;
+                }
+            }
+        }
         if !v.ok {
             let expected = format!("reference: stdout {:?} outcome {:?}", rf.stdout, rf.outcome);
             self.record(&case, &src, &v, &expected, &real, Some(&rf));
@@ -201,6 +220,7 @@ pub fn merge_tallies(ts: Vec<Tally>) -> Tally {
         t.ref_errors += o.ref_errors;
         t.distinct.extend(o.distinct);
         t.fail_count += o.fail_count;
+        t.paren_variants += o.paren_variants;
         t.failures.extend(o.failures);
         for s in o.samples {
             if t.samples.len() < 6 {
@@ -260,6 +280,7 @@ pub fn run_profile_cfgs(
                 tally: Tally::default(),
                 classify,
                 extra_check: extra_check.map(|f| f as &dyn Fn(&Case, &str, &Obs) -> Option<(String, String)>),
+                paren_variant_every: tier.pick(2, 1),
             };
             generate(tier, &mut |c| r.take(c));
             r.tally
@@ -301,6 +322,7 @@ pub fn run_profile_cfgs(
                     tally: Tally::default(),
                     classify,
                     extra_check: extra_check.map(|f| f as &dyn Fn(&Case, &str, &Obs) -> Option<(String, String)>),
+                    paren_variant_every: 0,
                 };
                 let mut ai = 0usize;
                 generate(tier, &mut |a: Case| {
@@ -361,11 +383,12 @@ pub fn run_profile_cfgs(
     report.cov("skipped_unmodelled_by_reference", t.skipped_unmodelled);
     report.cov("skipped_nonterminating", t.skipped_nonterminating);
     report.cov("failing_cases_total", t.fail_count);
+    report.cov("redundant_parentheses_variants_run", t.paren_variants);
     report.cov("by_family", json!(t.by_family));
     report.cov("unmodelled_reasons", json!(t.unmodelled_reasons));
     report.cov("shape_predicate_counts", json!(t.masked));
     report.cov("exhaustive", true);
-    report.cov("rule", format!("{rule}{composed_rule}; every generated program is rendered to source, compiled and run on the real koto (fresh runtime) and evaluated by the reference interpreter kref; distinct_nontrivial = distinct (stdout, outcome) observations among compared programs"));
+    report.cov("rule", format!("{rule}{composed_rule}; every generated program is rendered to source, compiled and run on the real koto (fresh runtime) and evaluated by the reference interpreter kref; every second program (thorough: every program) is also run in a rendering with redundant parentheses around every operand, argument, element and assigned value, which must give the same observation; distinct_nontrivial = distinct (stdout, outcome) observations among compared programs"));
     report.cov("samples", json!(t.samples));
     for a in assumptions {
         report.assume(a);
